@@ -155,6 +155,11 @@ def run_impl(exe, cases, per_case_timeout=10.0, cwd=None, env=None, extra_args=(
     remaining cases are not run (result 'skipped -'): the check has its violations and replays, and a
     change that makes every call hang must not make the check itself run for hours."""
     import threading, queue
+    # the driver's own temporary files (jails of the file-system cases) live in this run's scratch directory, so
+    # that a driver process that is killed leaves nothing behind once the check ends
+    env = dict(env if env is not None else os.environ)
+    env["TMPDIR"] = os.path.join(scratch(), "drv")
+    os.makedirs(env["TMPDIR"], exist_ok=True)
     results = []
     crashes = []
     n = len(cases)
